@@ -44,7 +44,7 @@ variable (ns : Bytes) (encE : Entry → Bytes)
 
 def step (g : G) : GStep → G
   | .startSync i => { g with live := updL g.live i (Live.step (g.live i) (.startSync ns true [])).1 }
-  | .leave i => { g with live := updL g.live i (Live.step (g.live i) (.leave ns false)).1 }
+  | .leave i => { g with live := updL g.live i (Live.step (g.live i) (.leave ns false true)).1 }
   | .localWrite i e =>
     match put (g.sw.st i) e with
     | (_, .inserted _) =>
